@@ -187,6 +187,15 @@ theorem pinds_points_to_host (hid phid : List Nat) (hs : hid.Pairwise (· ≤ ·
   congr 1
   omega
 
+/-- Combined with the sort block: after `staging`'s sort block (with `hid` among the permuted arrays), every
+particle whose recorded host id is the id of a loaded halo points to the row carrying that id. -/
+theorem staged_pinds_point_to_host (permuted : List String) (t t' : HaloCols Val) (hhid : "hid" ∈ permuted)
+    (h : sortBlock permuted t = .ok t') (phid : List Nat) (p host : Nat)
+    (hp : phid[p]? = some host) (hin : host ∈ t.hid) :
+    ∃ j, (pinds t'.hid phid)[p]? = some j ∧ t'.hid[j]? = some host := by
+  obtain ⟨hperm, hsorted, _⟩ := ids_sorted permuted t t' hhid h
+  exact (pinds_points_to_host t'.hid phid hsorted p host hp (hperm.mem_iff.mpr hin)).2
+
 /-! ### non-vacuity: concrete, non-trivial instances -/
 
 section NonVacuity
